@@ -41,6 +41,9 @@ def ofPath : Path → Json
   | .tpm s => Json.arr #[ofStr "tpm", ofStr (streamName s)]
   | .finalGz s => Json.arr #[ofStr "finalGz", ofStr (streamName s)]
   | .refFa => Json.arr #[ofStr "refFa"]
+  | .refFai => Json.arr #[ofStr "refFai"]
+  | .refFaiData => Json.arr #[ofStr "refFaiData"]
+  | .refFaiTmp => Json.arr #[ofStr "refFaiTmp"]
 
 def jPath (j : Json) : Except String Path := do
   let a ← j.getArr?
@@ -57,6 +60,9 @@ def jPath (j : Json) : Except String Path := do
   | "info" => pure .info
   | "lock" => pure .lock
   | "refFa" => pure .refFa
+  | "refFai" => pure .refFai
+  | "refFaiData" => pure .refFaiData
+  | "refFaiTmp" => pure .refFaiTmp
   | "rgSplit" => return .rgSplit (← chr)
   | "save" => return .save (← chr)
   | "groups" => return .groups (← chr)
@@ -102,7 +108,7 @@ def jBoolD (j : Json) (k : String) (d : Bool) : Except String Bool :=
 def jVariant (j : Json) : Except String Variant := do
   pure ⟨← jBool (← arg j "flushBeforeLock"), ← jBool (← arg j "dropProcessed"), ← jBool (← arg j "locksFirst"),
         ← jBool (← arg j "countUnaligned"), ← jBoolD j "cleanBeforeParams" true, ← jBoolD j "dropAtDumpPrefix" true,
-        ← jBoolD j "flushSqanti" true, ← jBoolD j "resetCounter" true, ← jBoolD j "refRewrite" true⟩
+        ← jBoolD j "flushSqanti" true, ← jBoolD j "resetCounter" true, ← jBoolD j "refRewrite" true, ← jBoolD j "faiAtomic" true⟩
 
 def jRG (j : Json) : Except String RG := do
   match (← jStr j) with
@@ -118,7 +124,7 @@ def jCfg (j : Json) : Except String Cfg := do
          fromSaves := ← jBoolD j "fromSaves" false, sqanti := ← jBoolD j "sqanti" false,
          carried := ← jBoolD j "carried" false, countExons := ← jBoolD j "countExons" false,
          noModel := ← jBoolD j "noModel" false, gzip := ← jBoolD j "gzip" false,
-         highMemory := ← jBoolD j "highMemory" false, gzRef := ← jBoolD j "gzRef" false }
+         highMemory := ← jBoolD j "highMemory" false, gzRef := ← jBoolD j "gzRef" false, idx := ← jBoolD j "idx" false }
 
 /-- the configuration of the resumed run: optional fields `resumeHM` (`--resume --high_memory`) and `resumeKT`
     (`--resume --keep_tmp`), default: `--resume` alone = the options of the killed run; `resumeOrig` (development aid:
@@ -298,6 +304,25 @@ def ops : List (String × Handler) := [
       let cfg2 ← jResumeCfg j cfg
       pure (Json.mkObj [("verdict", ofVerdict (verdictFromOpts v cfg ord ord2 cfg2.highMemory cfg2.keepTmp fs0 k)),
                         ("resumed", ofResReads v cfg2 ord2 true (crashFSFrom v cfg ord fs0 k))])),
+  -- killed after k events, resumed (ord2) and killed after k2 events of the resumed run, resumed again (ord3)
+  ("verdict2", fun j => do
+      let v ← jVariant (← arg j "variant")
+      let cfg ← jCfg (← arg j "cfg")
+      let ord ← jList jPath (← arg j "ord")
+      let ord2 ← jList jPath (← arg j "ord2")
+      let ord3 ← jList jPath (← arg j "ord3")
+      let k ← jNat (← arg j "k")
+      let k2 ← jNat (← arg j "k2")
+      let fs0 ← jFS0 j
+      let cfg2 ← jResumeCfg j cfg
+      let fs1 := crashFSFrom v cfg ord fs0 k
+      let r2 := run v cfg2 ord2 true fs1
+      let fs2 := applyAll fs1 (r2.evs.take k2)
+      let r3 := run v cfg2 ord3 true fs2
+      let verdict := if !r3.ok then Verdict.fail
+                     else if sameFinals cfg r3.fs (run v cfg ord false fs0).fs then Verdict.equal else Verdict.diff
+      pure (Json.mkObj [("verdict", ofVerdict verdict), ("resumed1", ofRes cfg r2), ("crash2", ofFS cfg fs2),
+                        ("resumed2", ofRes cfg r3)])),
   -- verdicts for every crash index 0..len
   ("verdicts", fun j => do
       let v ← jVariant (← arg j "variant")
